@@ -6,7 +6,7 @@ namespace ef {
 using namespace inov;
 typedef std::complex<double> cd;
 
-struct Cfg { unsigned n, nb, N, spacing; std::vector<uint32_t> buckets; };
+struct Cfg { unsigned n, nb, N, spacing; std::vector<uint32_t> buckets; float pext = 6.f; /* half extent of the energy axis (position axis: 6) */ };
 
 struct Rig {
     Cfg c; psptr ps; std::shared_ptr<Impedance> z; std::unique_ptr<ElectricField> f;
@@ -14,7 +14,7 @@ struct Rig {
     double Ib = 3e-3, E0 = 1.3e9, sd = 4.7e-4, dt = 2e-9, frev = 9e6; float revpart = 0.018f;
     explicit Rig(const Cfg& cfg, bool longctor = true) : c(cfg) {
         set_size(c.n, c.nb);
-        ps = mkps_shift(c.n, 12, 0, 0, even_filling(c.nb));
+        ps = mkps(-6, 6, -c.pext, c.pext, even_filling(c.nb));
         z = std::make_shared<Impedance>(std::vector<impedance_t>(c.N, impedance_t(0, 0)), 1e12f);
         if (longctor) f.reset(new ElectricField(ps, z, c.buckets, c.spacing, nullptr, frev, revpart, Ib, E0, sd, dt));
         else f.reset(new ElectricField(ps, z, c.buckets, c.spacing, nullptr, frev, revpart));
